@@ -11,6 +11,8 @@
    does not parse or evaluates to an error value; no theorem speaks about them.
    ctxmap (MigrateContextReference) and printable (unicode.IsPrint) are universally quantified. *)
 From Coq Require Import List NArith Bool.
+From Coq Require String.
+Import String.StringSyntax.
 From Verif Require Import model.LegacyTy gen.LegacyTable model.LegacySyntax model.Legacy model.LegacyCorr.
 From Verif Require Import proofs.LegacyWf proofs.LegacySyntaxProofs proofs.LegacyProofs.
 Import ListNotations.
@@ -61,6 +63,27 @@ Proof.
            end).
 Qed.
 Print Assumptions c17_grouping.
+
+(* The intended tree exists for every regular legacy tree (proofs/LegacyProofs.v [regular]: literals without
+   backslash, DECIMAL tokens, any operators and nesting, table functions with a number of arguments the migrator
+   accepts, unknown functions named by one Excellent3 NAME), provided every context reference migrates to a
+   canonically printed expression ([canon]; checked on every name of every generated template on each run).
+   So for all such trees the migrated text re-parses to the intended tree. *)
+Theorem c17_intended_tree_exists : forall ctxmap raw_dates,
+  (forall n, canon (ctxmap n) <> None) ->
+  forall e, regular e -> exists t, mt ctxmap raw_dates e = Some t /\ parse3 (visit ctxmap raw_dates e) = Some t.
+Proof.
+  exact (fun ctxmap raw_dates Hctx e R =>
+           match mt_total ctxmap raw_dates Hctx e R with
+           | ex_intro _ t Ht => ex_intro _ t (conj Ht (grouping ctxmap raw_dates e t Ht))
+           end).
+Qed.
+Print Assumptions c17_intended_tree_exists.
+
+Example c17_regular_example :
+  regular (E1Call (s2t "POWER"%string) [E1Bin OAdd (E1Dec [49]) (E1Dec [50]); E1Str (legacy_quote [97; 34; 98])]).
+Proof. exact regular_example. Qed.
+Print Assumptions c17_regular_example.
 
 (* The only freedom of the intended tree is parentheses. *)
 Theorem c17_wrap_only_parenthesizes : forall t p, erase3 (wrap t p) = erase3 t.
